@@ -3,6 +3,7 @@ package aggregator
 import (
 	"fmt"
 	"reflect"
+	"strconv"
 	"strings"
 	"sync"
 
@@ -218,11 +219,15 @@ func (ga *GroupAggregator) Add(data any) error {
 			continue
 		}
 
-		if str, ok := fieldVal.(string); ok {
-			key += str + groupKeySep
-		} else {
-			key += fmt.Sprintf("%v", fieldVal) + groupKeySep
+		// Length-prefix each component: a value that itself contains the
+		// separator (or equals the NULL marker) must not collide with a
+		// different key tuple. The key is only an index; group values are
+		// restored from groupKeyVals.
+		str, ok := fieldVal.(string)
+		if !ok {
+			str = fmt.Sprintf("%v", fieldVal)
 		}
+		key += strconv.Itoa(len(str)) + ":" + str + groupKeySep
 		keyVals = append(keyVals, fieldVal)
 	}
 
